@@ -1,6 +1,177 @@
-/-! line protocol for C13 (stub: no model yet) -/
-namespace ObiVerif.Driver.C13
+import ObiVerif.Model.Clean
+import ObiVerif.Model.Race
+import ObiVerif.Driver.Util
+/-! line protocol for C13 (see harness/c13.go):
 
-def run (_line : String) : String := "bad-op"
+    g <workers> <maxError> <p> <q> <count>:<hexseq> ...             one sample
+    a <workers> <maxError> <p> <q> <hexseq>/<s>=<n>,<s>=<n> ...     several samples, annotations
+    race <one of the above>                                          same result (the harness replays it under the race detector)
+    fact soncount                                                    `synchronised` : the structural fact (every write of SonCount in the
+                                                                     two pool functions is under Lock/Unlock or sync/atomic) the model assumes
+
+Besides the sequential reference `cleanSample`, every `g`/`a` sample is also pushed through the worker-pool model
+of `Model/Race.lean` (`workers` threads, rows dealt round-robin, a pseudo-random interleaving of ATOMIC increments)
+and the answer is `schedule-mismatch` if that differs from the reference (a test of `graph_schedule_independent`
+on concrete values); the verbatim index-loop layers of the two kernels (`d1or0`, `fastLCSScore`) are executed
+side by side with the structural layers the model uses (`layer-mismatch` / `panic`). -/
+namespace ObiVerif.Driver.C13
+open ObiVerif.Clean ObiVerif.Driver
+open ObiVerif.Lcs (Seq d1or0 d1F fastLCSScore bandLCS)
+
+def insStr (a : String) : List String → List String
+  | [] => [a]
+  | x :: xs => if a ≤ x then a :: x :: xs else x :: insStr a xs
+def sortStr (l : List String) : List String := l.foldr insStr []
+
+def showEdge (e : Edge) : String := s!"{e.father}.{e.dist}.{e.pos}.{e.frm.toNat}.{e.to.toNat}"
+
+def showMuts (outs : List Out) (o : Out) : List String :=
+  (mutations outs o).map (fun (k, v) => s!"s{k}={v}")
+
+def showOut (outs : List Out) (o : Out) : String :=
+  s!"{o.node.orig}/{o.node.count}/{o.weight}/{o.sons}/{(status o.edges o.sons).str}/" ++
+  ",".intercalate (o.edges.map showEdge) ++ "/" ++ ",".intercalate (sortStr (showMuts outs o).eraseDups)
+
+/-- the verbatim layers agree with the structural ones on every pair the graph construction looks at -/
+def layersOK (cfg : Config) (ns : List Node) : Option String :=
+  let arr := ns.toArray
+  let n := arr.size
+  (List.range n).foldl (fun acc i =>
+    (List.range' (i + 1) (n - (i + 1))).foldl (fun acc j =>
+      match acc with
+      | some e => some e
+      | none =>
+        let a := (arr.getD i ⟨0, 0, []⟩).seq
+        let b := (arr.getD j ⟨0, 0, []⟩).seq
+        match d1or0 a b with
+        | .error .panic => some "panic"
+        | .error .fuel => some "layer-mismatch"
+        | .ok d =>
+          if d ≠ d1F a b then some "layer-mismatch" else
+          if cfg.maxError > 1 ∧ d.verdict < 0 then
+            match fastLCSScore a b cfg.maxError, bandLCS a b cfg.maxError with
+            | .ok (s, l), some (s', l') => if s = s' ∧ l = l' then none else some "layer-mismatch"
+            | .ok (s, l), none => if s = -1 ∧ l = -1 then none else some "layer-mismatch"
+            | .error .panic, _ => some "panic"
+            | .error .fuel, _ => some "layer-mismatch"
+          else none) acc) none
+
+/-- a deterministic pseudo-random complete schedule for `threads` : picks a non-finished thread by an LCG -/
+def picksFor (lens : List Nat) (seed : Nat) : List Nat :=
+  let total := lens.sum
+  let w := lens.length
+  if w = 0 then [] else
+  ((List.range (2 * total + 4 * w)).foldl (fun (acc : List Nat × Nat) _ =>
+    let x := (acc.2 * 1103515245 + 12345) % 2147483648
+    ((x / 65536) % w :: acc.1, x)) ([], seed)).1 ++ (List.range w).flatMap (fun t => List.replicate (lens.getD t 0) t)
+
+/-- the worker pool of `Model/Race.lean` on this sample: `workers` threads, rows dealt round-robin, atomic
+increments, a pseudo-random complete interleaving: must give the sequential reference -/
+def poolAgrees (K : Kernels) (cfg : Config) (workers : Nat) (sample : List Node) : Bool :=
+  let ns := (sortByCount sample).toArray
+  let n := ns.size
+  let mk (rows : List Nat) (shift : Nat) : Race.Sched :=
+    let assign := (List.range workers).map (fun t => rows.filter (fun i => (i + shift) % workers == t))
+    let lens := assign.map (fun rows => rows.length * n)
+    { assign := assign.map List.reverse, picks := picksFor lens (n + shift + workers) }
+  let es1 := edges1 K ns
+  let s1 := mk (List.range n) 0
+  let s2 := mk ((List.range n).filter (fun i => (es1.getD i []).isEmpty)) 1
+  let m1 := Race.parMachine (rowEdges1 K ns) true s1.assign s1.picks
+  let m2 := Race.parMachine (fun i => if cfg.maxError > 1 then rowEdges2 K cfg.maxError ns (es1.getD i []) i else [])
+    true s2.assign s2.picks
+  m1.done && m2.done &&
+  (match Race.cleanSamplePar K cfg sample true s1 s2, cleanSample K cfg sample with
+   | .ok a, .ok b => a == b
+   | .hang, .hang => true
+   | _, _ => false)
+
+def runSample (cfg : Config) (workers : Nat) (sample : List Node) : Except String (List Out) :=
+  match layersOK cfg (sortByCount sample) with
+  | some e => .error e
+  | none =>
+    if !poolAgrees realKernels cfg workers sample then .error "schedule-mismatch" else
+    match cleanSample realKernels cfg sample with
+    | .hang => .error "hang"
+    | .ok outs => .ok outs
+
+def plain (s : Seq) : Bool := s.all (fun b => 97 ≤ b ∧ b ≤ 122)
+
+def parseG (w : String) : Option (Nat × Seq) :=
+  match w.splitOn ":" with
+  | [c, h] => do
+    let c ← c.toNat?
+    let s ← unhex h
+    if c > 1073741824 ∨ !plain s then none else pure (c, s)
+  | _ => none
+
+def parseKV (w : String) : Option (Char × Nat) :=
+  match w.toList with
+  | k :: '=' :: rest => do
+    let n ← (String.ofList rest).toNat?
+    if 'a' ≤ k ∧ k ≤ 'z' ∧ n ≤ 1073741824 then pure (k, n) else none
+  | _ => none
+
+def parseA (w : String) : Option (Seq × List (Char × Nat)) :=
+  match w.splitOn "/" with
+  | [h, m] => do
+    let s ← unhex h
+    let kv ← (m.splitOn ",").mapM parseKV
+    if !plain s ∨ (kv.map (·.1)).eraseDups.length ≠ kv.length then none else pure (s, kv)
+  | _ => none
+
+def header (ws : List String) : Option (Nat × Config) :=
+  match nats? ws with
+  | some [w, d, p, q] => if w < 1 ∨ w > 64 ∨ q < 1 ∨ d > 8 then none else some (w, { maxError := d, p := p, q := q })
+  | _ => none
+
+def insChar (a : Char) : List Char → List Char
+  | [] => [a]
+  | x :: xs => if a ≤ x then a :: x :: xs else x :: insChar a xs
+
+def runA (workers : Nat) (cfg : Config) (items : List (Seq × List (Char × Nat))) : String :=
+  let names := ((items.flatMap (fun it => it.2.map (·.1))).eraseDups).foldr insChar []
+  let idx := items.zipIdx
+  let perSample : Except String (List (Char × List Out)) := names.mapM (fun name =>
+    let sample : List Node := idx.filterMap (fun (it, i) =>
+      (it.2.find? (fun kv => kv.1 == name)).map (fun kv => ({ orig := i, count := kv.2, seq := it.1 } : Node)))
+    (runSample cfg workers sample).map (fun outs => (name, outs)))
+  match perSample with
+  | .error e => e
+  | .ok samples =>
+    if idx.isEmpty then "-" else
+    joinSp (idx.map (fun (_, i) =>
+      let mine : List (Char × List Out × Out) := samples.filterMap (fun (name, outs) =>
+        (outs.find? (fun o => o.node.orig == i)).map (fun o => (name, outs, o)))
+      let sts := mine.map (fun (_, _, o) => status o.edges o.sons)
+      let h := (sts.filter (· == .head)).length
+      let it := (sts.filter (· == .internal)).length
+      let sg := (sts.filter (· == .singleton)).length
+      let stS := mine.map (fun (name, _, o) => s!"{name}={(status o.edges o.sons).str}")
+      let wS := mine.map (fun (name, _, o) => s!"{name}={o.weight}")
+      let mS := sortStr ((mine.flatMap (fun (_, outs, o) => showMuts outs o)).eraseDups)
+      s!"{if h + sg > 0 then 1 else 0}/{h}/{it}/{sg}/{h + it + sg}/" ++ ",".intercalate stS ++ "/" ++
+        ",".intercalate wS ++ "/" ++ ",".intercalate mS))
+
+def runWords : List String → String
+  | ["fact", "soncount"] => "synchronised"   -- the hypothesis `atomic = true` of `graph_schedule_independent`
+  | "race" :: rest => runWords rest
+  | "g" :: w :: d :: p :: q :: items =>
+    match header [w, d, p, q], items.mapM parseG with
+    | some (workers, cfg), some items =>
+      if items.any (fun it => it.1 == 0) then "bad-op" else
+      let sample : List Node := items.zipIdx.map (fun (it, i) => { orig := i, count := it.1, seq := it.2 })
+      match runSample cfg workers sample with
+      | .error e => e
+      | .ok outs => if outs.isEmpty then "-" else joinSp (outs.map (showOut outs))
+    | _, _ => "bad-op"
+  | "a" :: w :: d :: p :: q :: items =>
+    match header [w, d, p, q], items.mapM parseA with
+    | some (workers, cfg), some items =>
+      if items.any (fun it => it.2.any (fun kv => kv.2 == 0)) then "bad-op" else runA workers cfg items
+    | _, _ => "bad-op"
+  | _ => "bad-op"
+
+def run (line : String) : String := runWords (words line)
 
 end ObiVerif.Driver.C13
